@@ -39,6 +39,8 @@ TRUSTED_EXTRA = [
     "engine's (C09); here Connection::take is compared with the task-level model of Object::take",
 ]
 
+ANOMALIES = {905: 'get() returned a connection that does not answer', 906: 'the same connection was handed out twice'}
+
 LNAMES = {0: 'get', 1: 'return', 2: 'take', 3: 'use', 4: 'script PING', 5: 'script UNWATCH error', 6: 'script connect refused',
           7: 'server hangs up'}
 USE = ['WATCH', 'GET', 'SET', 'UNWATCH']
@@ -66,8 +68,8 @@ def ensure_coq():
 
 def batches(tier):
     if tier == 'thorough':
-        return [('mixed', 6000, 70), ('faults', 6000, 70)]
-    return [('mixed', 500, 45), ('faults', 500, 45)]
+        return [('mixed', 12000, 70), ('faults', 12000, 70)]
+    return [('mixed', 1200, 45), ('faults', 1200, 45)]
 
 
 def gen_traces(seed, profile, n, maxlabels):
@@ -161,7 +163,7 @@ def monitor_trace(t, P):
         k = l[0]
         c = l[1] if len(l) > 1 else 0
         if d['anom']:
-            return i, 'harness anomaly %s' % d['anom']
+            return i, '; '.join(ANOMALIES.get(a, 'harness anomaly %d' % a) for a in d['anom'])
         by_conn = {}
         for m in d['cmds']:
             by_conn.setdefault(m[0], []).append(m)
@@ -287,8 +289,8 @@ def analyze(traces, mo):
                 good = sum(1 for x in pings if x[3] == 1 and x[4] == x[2])
                 stats['recycles accepted'] += good
                 stats['recycles rejected after a bad answer'] += len(pings) - good
-                if d['res'][0] == 1 and any(x[1] == 6 and len(d['cmds']) >= 3 for x in d['cmds']):
-                    stats['reuses'] += 1
+                if d['res'][0] == 1:
+                    stats['reuses' if any(x[1] == 2 and x[0] == d['res'][1] for x in d['cmds']) else 'new connections'] += 1
         f = monitor_trace(t, P)
         if f:
             s['monitor_fails'].append(dict(trace=ti, step=f[0], msg=f[1]))
